@@ -839,3 +839,92 @@ Theorem visitor_loop_ends_after_close s t :
 Proof.
   intros Ht Hc Hq. unfold il_step. rewrite Ht. unfold ch_try_recv. rewrite Hq, Hc. simpl. unfold upd. rewrite Nat.eqb_refl. auto.
 Qed.
+
+(* ====== one worker per session: no double close ====== *)
+
+Definition one_teardown (cfg : pcfg) : Prop :=
+  forall t1 t2, pl_req_of cfg t1 = Some RTeardown -> pl_req_of cfg t2 = Some RTeardown -> t1 = t2.
+
+Record TInv (cfg : pcfg) (s : pst) : Prop := {
+  t_kind : forall t p, ps_thr s t = TT p -> pl_req_of cfg t = Some RTeardown;
+  t_nc : ps_crashed s = false;
+  t_cl : ch_closed (ps_ch s) = true -> forall t, ps_thr s t <> TT TStop /\ ps_thr s t <> TT TCloseCh
+}.
+
+Lemma tinv_init cfg : TInv cfg (pl_init cfg).
+Proof.
+  constructor; simpl; auto; try discriminate.
+  intros t p. unfold pl_init_thr. destruct (pl_req_of cfg t) as [[]|]; try discriminate; auto.
+Qed.
+
+Lemma tinv_step cfg s t : one_teardown cfg -> TInv cfg s -> TInv cfg (pl_step cfg s t).
+Proof.
+  intros U [Tk Tn Tc].
+  assert (Tc1 : ch_closed (ps_ch s) = true -> forall t0, ps_thr s t0 <> TT TStop) by (intros H t0; apply Tc; auto).
+  assert (Tc2 : ch_closed (ps_ch s) = true -> forall t0, ps_thr s t0 <> TT TCloseCh) by (intros H t0; apply Tc; auto).
+  unf. brk; hyp; simpl in *;
+  try (exfalso; eapply Tc2; eauto; fail);
+  (constructor; simpl; auto;
+   first
+   [ solve [ intro; intro; unfold upd; eqs; try discriminate; eauto ]
+   | solve [ intros Hc ?; unfold upd; eqs; split; try discriminate; try (apply Tc; auto; fail);
+          try (intros Hx; eapply Tc1; eauto; fail); try (intros Hx; eapply Tc2; eauto; fail);
+          try congruence;
+          intros Hx; apply Tk in Hx;
+          match goal with E : ps_thr s t = TT _ |- _ => apply Tk in E; specialize (U _ _ Hx E); congruence end ]
+   | idtac ]).
+Qed.
+
+Lemma tinv_exec cfg sched : one_teardown cfg -> TInv cfg (pl_exec cfg sched).
+Proof.
+  intros U. unfold pl_exec. generalize (tinv_init cfg). generalize (pl_init cfg).
+  induction sched as [|t r IH]; simpl; intros s I; auto. apply IH, tinv_step; auto.
+Qed.
+
+(* a session has one worker goroutine: then no schedule closes the pool twice *)
+Theorem single_teardown_never_crashes cfg sched :
+  one_teardown cfg -> ps_crashed (pl_exec cfg sched) = false.
+Proof. intros U. apply (t_nc _ _ (tinv_exec cfg sched U)). Qed.
+
+Theorem no_orphan_after_teardown_single cfg sched c :
+  one_teardown cfg ->
+  let s := pl_exec cfg sched in
+  (forall t, pl_thread_finished (ps_thr s t) = true) ->
+  (exists t, ps_thr s t = TT TFin) ->
+  pl_view s c = VNone \/ pl_view s c = VClosed \/ exists u, pl_view s c = VDelivered u /\ ps_user s u = UBridged c.
+Proof.
+  intros U s Hf Ht. apply no_orphan_after_teardown; auto. apply single_teardown_never_crashes; auto.
+Qed.
+
+(* ====== an open user connection is being served ====== *)
+
+Definition UInv (s : pst) : Prop := forall u, ps_user s u <> UNone -> exists p, ps_thr s u = TU p.
+
+Lemma uinv_init cfg : UInv (pl_init cfg).
+Proof.
+  intros u. simpl. unfold pl_init_thr. destruct (pl_req_of cfg u) as [[]|]; try congruence; eauto.
+Qed.
+
+Lemma uinv_step cfg s t : UInv s -> UInv (pl_step cfg s t).
+Proof.
+  intros UI. unf. brk; hyp; simpl in *; auto;
+  intros ? Hu; simpl in *; unfold upd in *; eqs; eauto;
+  try (match goal with E : ps_thr s ?x = _ |- exists _, _ = _ => destruct (UI x) as [? Hx]; [congruence|]; rewrite E in Hx; discriminate end).
+Qed.
+
+Lemma uinv_exec cfg sched : UInv (pl_exec cfg sched).
+Proof.
+  unfold pl_exec. generalize (uinv_init cfg). generalize (pl_init cfg).
+  induction sched as [|t r IH]; simpl; intros s I; auto. apply IH, uinv_step; auto.
+Qed.
+
+(* a user connection that is still open (neither bridged nor closed) is still in the hands of its handler:
+   its thread has not ended — it is never left open without somebody serving it *)
+Theorem user_open_is_being_served cfg sched u :
+  let s := pl_exec cfg sched in
+  ps_user s u = UOpen -> exists p, ps_thr s u = TU p /\ p <> UDone.
+Proof.
+  intros s H. destruct (uinv_exec cfg sched u) as [p Hp]; [fold s; congruence|]. fold s in Hp.
+  exists p. split; auto. intros ->.
+  destruct (i_done s (exec_inv cfg sched) u Hp) as [Hc|[c Hc]]; congruence.
+Qed.
